@@ -595,6 +595,22 @@ fn check_any(case: &HistCase, input: &[u8], mon: &mut Mon) {
     if run.abnormal {
         return;
     }
+    {
+        // shape of the history: source, how it started, how it ended, whether the
+        // text holds multi-byte or ill-formed sequences
+        let text_class = match std::str::from_utf8(input) {
+            Ok(s) if s.is_ascii() => "ascii",
+            Ok(_) => "multibyte",
+            Err(_) => "ill-formed",
+        };
+        let first = run.steps.first().map(|s| class_of(&s.res)).unwrap_or("none");
+        let last = run.steps.last().map(|s| class_of(&s.res)).unwrap_or("none");
+        let errs = run.steps.iter().filter(|s| s.res.is_err()).count();
+        mon.tuple(format!("any|{}|{}|{}|{}|errs{}", case.source.name(), text_class, first, last, errs.min(6)));
+        if text_class != "ascii" && errs > 0 {
+            mon.count("hist.non_ascii_text_with_errors");
+        }
+    }
     let sticky = matches!(&case.source, Source::Stream(p) if p.faults.iter().any(|f| f.sticky));
     if !sticky {
         termination_checks(case, input, &run, mon);
@@ -1372,15 +1388,10 @@ pub fn c17_run(seed: u64, i: u64, _tier: Tier, mon: &mut Mon, found: &mut Vec<Fo
         let popts = opts::draw_print(&mut rng);
         let mask = ValMask::draw(&mut rng, opts::print_fields(popts).chr == 1);
         let v = val::gen_value(&mut rng, &mask, 3);
-        let case = crate::sink::SinkCase {
-            popts,
-            values: vec![v],
-            entry: crate::sink::Entry::ToWriterCustom,
-            plan: WritePlan::benign(),
-            fmt: None,
-        };
+        let case = crate::sink::printer_side_case(popts, vec![v]);
+        mon.before_case(|| serde_json::to_string(&AnyCase::Sink(case.clone())).unwrap_or_default());
         let before = mon.violations.len();
-        crate::sink::check_printer_side(&case, mon, "printer side");
+        crate::sink::check_sink_case(&case, mon);
         for v in mon.violations[before..].to_vec() {
             found.push(Found { violation: v, case: AnyCase::Sink(case.clone()) });
         }
